@@ -65,6 +65,7 @@ BOUNDS = {
         "h5": "12 shapes x all labellings x 4 sample-name menus, graded distinct values",
         "effects": "arity 2: <=3 rows (6174 arrays); arity 3: <=3 rows (160434 arrays); 1 observation vector; arity 2 again under 5 non-contiguous (treatment id, sample id) relabellings, and ids {-1,0,1,3} / {-1,4,0,2} with 3 rows",
         "synergy": "arity 2, ids {-1,0,1}: <=3 rows (4368 arrays) x strict/lenient",
+        "screen_effects": "2 live screens x every non-empty union of unobserved plates filled in by set_observed x effects read before or not, through the screen and every plate view",
         "cmse": "E<=3 rows, T<=3 thetas, E*T<=6, predictions and observations over {0,.5,1}",
         "corr": "K1 (2 samples, 3 mapping rows): {0,1}^6 tables; K2 (3 samples): {0,1}^9 tables; K2..K7 (repeated drug name, no control, arity 3, custom non-sorted mappings with an absent sample and an unused treatment, two control rows): 6 graded tables x T in 1..3; generate_full_combinatoric_space on every shape x sample; K2/K3/K6 graded tables rescaled by 1e-7, 1e-8, 1e6",
     },
@@ -1075,11 +1076,86 @@ def plan(tier, seed):
     items += synergy_plan(tier)
     items += cmse_plan(tier)
     items += corr_plan(tier)
+    items.append({"fam": "screen-effects"})
     return items
+
+
+# ======================================================================= family: effects read off a live Screen
+SCREEN_EFFECT_ROWS = [
+    # (sample, plate, treatments, observation, observed)
+    [("s0", "p0", (("a", 1.0), ("", 0.0)), 0.8, True), ("s0", "p0", (("b", 1.0), ("", 0.0)), 0.6, True),
+     ("s0", "p1", (("a", 1.0), ("b", 1.0)), 0.3, True), ("s0", "p2", (("", 0.0), ("a", 1.0)), 0.4, False),
+     ("s1", "p2", (("a", 1.0), ("", 0.0)), 0.5, False), ("s1", "p3", (("b", 1.0), ("", 0.0)), 0.7, False),
+     ("s1", "p1", (("b", 1.0), ("a", 1.0)), 0.2, True)],
+    [("s0", "q0", (("a", 1.0), ("", 0.0)), 0.9, False), ("s0", "q1", (("a", 1.0), ("", 0.0)), 0.1, False),
+     ("s0", "q2", (("a", 1.0), ("a", 2.0)), 0.5, True), ("s0", "q2", (("a", 2.0), ("", 0.0)), 0.25, True)],
+]
+
+
+def check_screen_effects(case, col):
+    """History on ONE Screen object: [read the effects] -> set_observed(plates, new values) -> read the effects (through the
+    screen and through a plate view): they are the means of the CURRENT single-agent observations."""
+    from ..screens import make_screen
+
+    rows = SCREEN_EFFECT_ROWS[case["screen"]]
+    screen = make_screen(rows, control="")
+    names = [r[1] for r in rows]
+    col.states += 1
+    col.evaluations += 1
+    col.transitions += 2
+    if case["read_first"]:
+        screen.single_treatment_effects
+        for p in screen.plates:
+            p.single_treatment_effects
+    sel = np.array([n in case["plates"] for n in names], dtype=bool)
+    new = np.array([0.05 + 0.11 * k for k in range(int(sel.sum()))], dtype=float)
+    screen.set_observed(sel, new)
+    obs = [float(x) for x in screen.observations]
+    samples = [int(x) for x in screen.sample_ids]
+    ids = [[int(t) for t in row] for row in screen.treatment_ids]
+    meas = ref_effects(samples, ids)
+    got = screen.single_treatment_effects
+    complete = all(ref_effect_value(meas, obs, s_, t) is not None for s_, row in zip(samples, ids) for t in row)
+    if got is None:
+        col.refused += 1
+        if complete:
+            col.violation("C20|screen_effects|none-although-complete", f"Screen.single_treatment_effects is None although every effect is measured ({case})", case)
+        col.outcome("screen-effects", "none")
+        return
+    got = np.asarray(got, dtype=float)
+    views = [("screen", got, np.ones(len(rows), dtype=bool))]
+    for p in screen.plates:
+        v = p.single_treatment_effects
+        if v is not None:
+            views.append((f"plate {p.plate_name}", np.asarray(v, dtype=float), np.asarray(p.selection_vector, dtype=bool)))
+    for label, arr, svec in views:
+        idx = np.flatnonzero(svec)
+        for k, i in enumerate(idx):
+            for j, t in enumerate(ids[i]):
+                want = ref_effect_value(meas, obs, samples[i], t)
+                if want is not None and not close(arr[k, j], want):
+                    col.violation("C20|screen_effects|stale" if case["read_first"] else "C20|screen_effects|value",
+                                  f"after set_observed on plates {case['plates']}{' (effects had been read before)' if case['read_first'] else ''}: {label} reports effect "
+                                  f"{arr[k, j]!r} for row {i} slot {j}, the mean of the current single-agent observations is {want!r}", case)
+    col.outcome("screen-effects", got.tobytes())
+    col.nontriv("screen-effects", case["screen"], tuple(case["plates"]), case["read_first"])
+
+
+def screen_effects_run(item, col):
+    for si, rows in enumerate(SCREEN_EFFECT_ROWS):
+        unobs = sorted({r[1] for r in rows if not r[4]})
+        for k in range(1, len(unobs) + 1):
+            for plates in itertools.combinations(unobs, k):
+                for read_first in (False, True):
+                    check_screen_effects({"fam": "screen-effects", "screen": si, "plates": list(plates), "read_first": read_first}, col)
 
 
 def run_item(item, col, tier):
     fam = item["fam"]
+    if fam == "screen-effects":
+        col.count("items:" + fam)
+        screen_effects_run(item, col)
+        return
     col.count("items:" + fam)
     before = col.evaluations
     if fam == "metrics":
@@ -1120,5 +1196,7 @@ def replay(case, col):
         check_corr(case, col, record=False)
     elif fam == "space":
         check_space(case["shape"], col)
+    elif fam == "screen-effects":
+        check_screen_effects(case, col)
     else:
         raise KeyError(fam)
